@@ -76,6 +76,78 @@ func checkIsTagAssert(c *Ctx) bool {
 	return okPanic && okReturn
 }
 
+// tagAssertSummary: f (a helper introduced since the baseline) panics unless its
+// parameter i — a GeometryType, or a Geometry whose gtype is meant — equals its
+// parameter j: every return is reached only under that equality and some path
+// panics. A dominating call then acts as a tag guard.
+func tagAssertSummary(f *ssa.Function) (objIdx, kIdx int, objIsGeom, ok bool) {
+	if f == nil || len(f.Blocks) == 0 || f.Signature.Results().Len() != 0 {
+		return 0, 0, false, false
+	}
+	hasPanic := false
+	for _, b := range f.Blocks {
+		if n := len(b.Instrs); n > 0 {
+			if _, isP := b.Instrs[n-1].(*ssa.Panic); isP {
+				hasPanic = true
+			}
+		}
+	}
+	if !hasPanic {
+		return 0, 0, false, false
+	}
+	for i, pi := range f.Params {
+		for j, pj := range f.Params {
+			if i == j || namedName(pj.Type()) != "GeometryType" {
+				continue
+			}
+			isGeom := namedName(pi.Type()) == "Geometry"
+			if !isGeom && namedName(pi.Type()) != "GeometryType" {
+				continue
+			}
+			cmp := func(cond ssa.Value) int {
+				if isGeom {
+					return tagCmp(cond, pi, pj)
+				}
+				bo, ok := cond.(*ssa.BinOp)
+				if !ok || (bo.Op != token.EQL && bo.Op != token.NEQ) {
+					return 0
+				}
+				if (bo.X == ssa.Value(pi) && bo.Y == ssa.Value(pj)) || (bo.X == ssa.Value(pj) && bo.Y == ssa.Value(pi)) {
+					if bo.Op == token.EQL {
+						return +1
+					}
+					return -1
+				}
+				return 0
+			}
+			all := true
+			for _, b := range f.Blocks {
+				n := len(b.Instrs)
+				if n == 0 {
+					continue
+				}
+				if _, isRet := b.Instrs[n-1].(*ssa.Return); !isRet {
+					continue
+				}
+				has := false
+				for _, g := range guardsAtBlock(b) {
+					s := cmp(g.Cond)
+					if (s == +1 && g.Truth) || (s == -1 && !g.Truth) {
+						has = true
+					}
+				}
+				if !has {
+					all = false
+				}
+			}
+			if all {
+				return i, j, isGeom, true
+			}
+		}
+	}
+	return 0, 0, false, false
+}
+
 // tagCmp: +1 if cond is `<obj>.gtype == k`, -1 if `!=`, 0 otherwise.
 func tagCmp(cond ssa.Value, obj ssa.Value, k ssa.Value) int {
 	bo, ok := cond.(*ssa.BinOp)
@@ -192,6 +264,26 @@ func runTag(c *Ctx) {
 								tagOK = true
 								why = "dominating call check(" + byVal[k].Obj().Name() + ") which panics unless the tag matches"
 							}
+						}
+					}
+				}
+				if !tagOK {
+					// dominating call of a helper introduced since the baseline that panics unless the tag matches
+					for _, call := range dominatingCalls(x) {
+						h := staticCallee(call)
+						if h == nil || !isNewHelper(h) {
+							continue
+						}
+						oi, ki, isGeom, ok := tagAssertSummary(h)
+						args := call.Common().Args
+						if !ok || oi >= len(args) || ki >= len(args) {
+							continue
+						}
+						kv, isC := constInt(args[ki])
+						b2, path := baseObject(args[oi])
+						if isC && kv == k && b2 == base && ((isGeom && len(path) == 0) || (!isGeom && len(path) == 1 && path[0] == "gtype")) {
+							tagOK = true
+							why = "dominating call " + FuncName(h) + "(…, " + byVal[k].Obj().Name() + ") which panics unless the tag matches"
 						}
 					}
 				}
